@@ -15,8 +15,12 @@ ROOT = os.path.dirname(os.path.dirname(os.path.abspath(__file__)))
 
 def load_known():
     open_, fixed = [], []
-    p = os.path.join(ROOT, "known_findings.jsonl")
-    if os.path.exists(p):
+    paths = [os.path.join(ROOT, "known_findings.jsonl")]
+    if os.environ.get("VERIF_KNOWN_EXTRA"):       # development aid: proposed entries not yet committed
+        paths.append(os.environ["VERIF_KNOWN_EXTRA"])
+    for p in paths:
+        if not os.path.exists(p):
+            continue
         for line in open(p):
             line = line.strip()
             if not line or line.startswith("#"):
